@@ -16,10 +16,18 @@ THEOREMS = [
     {"name": "C19_offers_sorted", "strength": "F", "text": "every answer of get_next_tasks is sorted by (task id, route)"},
     {"name": "C19_query_identity_when_held", "strength": "F",
      "text": "in pausing/paused/canceling/canceled/succeeded the query returns [] and leaves the state exactly as it was"},
-    {"name": "(tested, not proved) identical artefacts across interpreter hash seeds; query idempotence while running",
-     "strength": "T", "text": "subprocess replay of every case under 3 PYTHONHASHSEED values comparing digests of graph, "
-                              "inspection report, every per-step observation (key order included), errors, output; double-"
-                              "query monitor"},
+    {"name": "C19b_query_idempotent / C19b_query_idempotent_from_creation / C19b_steps_idempotent (props/C19b.v)", "strength": "P",
+     "text": "for every initialised state, if get_next_tasks gives (c1, r1) then asking again gives exactly c1 and an answer "
+             "equal to r1 in id, route, rendered actions, delay, items_count and concurrency, with contexts equal except at "
+             "the __state entry -- also when the first call created an item table, logged a rendering failure or failed the "
+             "workflow. Hypotheses (each with a refuting witness): the evaluator does not read __state (state_blind), and no "
+             "run_on_fail entry is staged while the workflow is not failed"},
+    {"name": "C19b_query_not_idempotent_for_state_reading_expression", "strength": "R",
+     "text": "an action that reads $__state.staged renders differently the second time (replayed on the engine): a "
+             "consequence of known finding C16-dunder-direct-variable"},
+    {"name": "(tested, not proved) identical artefacts across interpreter hash seeds", "strength": "T",
+     "text": "subprocess replay of every case under 3 PYTHONHASHSEED values comparing digests of graph, inspection report, "
+             "every per-step observation (key order included), errors, output; double-query monitor on the engine"},
 ]
 TRUSTED_BASE = common.TRUSTED_BASE_COMMON
 ASSUMPTIONS = ["hash-seed dependence is a property of CPython that no Gallina model exhibits; it is tied by the subprocess "
